@@ -326,12 +326,12 @@ func Equal(p1, p2 Ptr) (bool, error) {
 			}
 		}
 		for i := n; i < int(s1.size.PointerCount); i++ {
-			if s1.HasPtr(uint16(i)) {
+			if s1.hasNonNullPtr(uint16(i)) {
 				return false, nil
 			}
 		}
 		for i := n; i < int(s2.size.PointerCount); i++ {
-			if s2.HasPtr(uint16(i)) {
+			if s2.hasNonNullPtr(uint16(i)) {
 				return false, nil
 			}
 		}
